@@ -135,7 +135,7 @@ impl Check for C01 {
     fn runs(&self, tier: Tier) -> u64 {
         match tier {
             Tier::Quick => 6000,
-            Tier::Thorough => 150000,
+            Tier::Thorough => 60000,
         }
     }
     fn generate(&self, rng: &mut Prng, tier: Tier, idx: u64) -> Value {
